@@ -732,6 +732,13 @@ func (c13) Gen(r *kern.Rng, tier string, idx int) *Trace {
 		w.Ops = GenOps(r, w.Data.Len, 0, 20)
 		sc.In = scen.InputSpec{Parts: []scen.StreamSpec{{Enc: "std", W: w}}}
 		sc.Dict = &d
+		if r.Pct(12) {
+			// the wrong dictionary: both a fresh and a reset Reader must say ErrDictionary
+			wrong := d
+			wrong.Seed ^= 0x5a5a
+			wrong.Kind = "rand"
+			sc.Dict = &wrong
+		}
 	}
 	if pkg == "zlib" && sc.Dict == nil && r.Pct(25) {
 		// a dictionary handed to Reset although the stream does not refer to one:
